@@ -39,8 +39,8 @@ PLAN = {}
 
 PLAN["C13"] = {
     "level": "model_checking",
-    "quick": ["allocb_q_", "alloc1_q_", "allocf_q_", "allocm_q_"],
-    "thorough": ["allocb_t_", "alloc1_t_", "allocf_t_", "allocm_t_"],
+    "quick": ["allocb_q_", "alloc1_q_", "allocf_q_", "allocm_q_", "rm_q_"],
+    "thorough": ["allocb_t_", "alloc1_t_", "allocf_t_", "allocm_t_", "rm_t_"],
     "bounds": {"quick": "slots<=3, free<=2, batch<=2", "thorough": "slots<=4, free<=4, batch<=3"},
     "outside": ["generation counter wrap at 2^64"],
     "stubs": [],
